@@ -8,7 +8,7 @@ check('C01', 'proof',
       "Every path is additionally cross-checked natively with floats.",
       "deductive: sidecar contracts + VC generation by symbolic execution of the real functions, z3 discharge, native replay", "DESIGN.md 4/C01")
 check('C09', 'proof',
-      "Mode U: 42 SparseVector kernels (the + - * / kernels for scalar/sparse/array operands and their in-place forms, ==, !=, >, <, >=, <= kernels incl. "
+      "Mode U: 64 sparse kernels (48 SparseVector incl. unary ones, 16 SparseLogicalVector; the + - * / kernels for scalar/sparse/array operands and their in-place forms, ==, !=, >, <, >=, <= kernels incl. "
       "exec-template expansions) are verified against their contracts (dense image = operator on dense images with length-1 broadcasting, rep_ok of the "
       "result, frame, ValueError exactly on shape mismatch) for vectors of ARBITRARY size: VCs are generated from the AST of the real source on every run "
       "(pointwise loop summaries, no unrolling) and discharged by z3; counter-models are replayed on the real kernel. Mode S: the public operator dispatch "
@@ -132,7 +132,7 @@ check('C02', 'proof',
       "H - H(other); the H/h/Hnet/S setters read back the assigned value including both fall-back branches; assigning the current value leaves T unchanged; frames (inlets, "
       "flows, P). Proof in mode S modulo A-root.",
       "A-real; A-models (pure-component H, S, Cn uninterpreted functions of (T,P); mixing rules, getters and caches are the real code); A-root / A-root-stay (solve_T_at_HP/SP "
-      "and xsolve_* return T* with property(T*) = target or raise; the real numeric solvers are NOT executed here and the planned mode-B sampling of A-root was not built). Not "
+      "and xsolve_* return T* with property(T*) = target or raise; the real numeric solvers are executed only in the bounded group C02/B_real_solvers). Not "
       "covered: vle=True mixing, multi-phase entropy with more than one chemical per phase. 4 defects repaired.",
       "deductive: sidecar contracts + VC generation by symbolic execution of the real functions, z3 discharge, native replay", "DESIGN.md 4/C02")
 check('C06', 'proof',
@@ -157,15 +157,15 @@ check('C03', 'proof',
       "read-only. vlle uses the VLE/LLE contracts proved in C03/vle_TP and C03/lle. Reactive VLE (gas/liquid_conversion) excluded (changes material by design). 1 defect repaired.",
       "deductive: sidecar contracts + VC generation by symbolic execution of the real bookkeeping with havoc'ed solvers, z3 discharge, native replay; bounded run-time contracts on real solvers", "DESIGN.md 4/C03")
 check('C18', 'proof',
-      "Mode U: 19 port-list operations of thermosteam.network (append, insert, item assignment, pop, remove, replace, clear, empty on AbstractInlets and AbstractOutlets; "
-      "disconnect_sink/source/disconnect on streams) are proved to preserve the well-formedness invariant WF (a stream is listed among a unit's inlets/outlets exactly when that "
+      "Mode U: 26 operations of thermosteam.network (append, insert, item assignment, slice assignment, extend, pop, remove, replace, clear, empty on AbstractInlets and AbstractOutlets; "
+      "disconnect_sink/source/disconnect on streams; AbstractUnit.take_place_of, replace_with(other), disconnect()) are proved to preserve the well-formedness invariant WF (a stream is listed among a unit's inlets/outlets exactly when that "
       "unit is its sink/source, no stream occupies two ports, fixed-size lists keep their size, placeholders one-sided; plus the typing invariants) over an ARBITRARY heap of "
       "units, port lists, streams and placeholders, together with each operation's local effect and allowed exceptions: VCs generated from the AST of the real source on every "
-      "run (calls inlined by receiver class, loop summaries, allocation), discharged by z3 (E-matching, then MBQI). Finite-domain z3 models are turned into real "
+      "run (calls inlined by receiver class, pointwise loop summaries, inductive loop invariants for extend and the re-docking loop of slice assignment, allocation; the unit-level operations modularly against the proved slice-assignment contract), discharged by z3 (E-matching, then MBQI). Finite-domain z3 models are turned into real "
       "thermosteam.network objects to cross-check the symbolic semantics natively and to replay failing obligations. Mode B (bounded, not counted as proved): every operation "
       "sequence within the stated preconditions to depth 3 (quick) / 4 (thorough) over 3 units and 5 streams incl. slices, pipes, unit-level insert/take_place_of/replace_with, "
       "and seeded random walks of length 50-60, with WF + local effect + frame checked after every step.",
-      "Mode U trusted base: the heap encoding (engine/vcg/heap.py), dropped `warn` calls; non-negative indices only; _set_streams (slices), extend, unit-level operations, pipe "
+      "Mode U trusted base: the heap encoding (engine/vcg/heap.py), dropped `warn` calls and the @ignore_docking_warnings wrapper; non-negative indices and slice bounds only, no None element in an assigned sequence; AbstractUnit.insert, pipe "
       "notation and Connection.reconnect are covered only by the bounded groups. 5 defects repaired (pop, clear, reverse, AbstractUnit.insert, AbstractUnit.disconnect).",
       "deductive: AST->SMT VC generation over a symbolic heap (quantified invariant, unbounded heap) with z3; finite-model native replay; bounded exhaustive exploration as stand-in for the rest", "DESIGN.md 4/C18")
 check('C08', 'other',
@@ -237,3 +237,57 @@ GENERAL = (" When the symbolic engine cannot execute a configuration of the tree
            "24 deterministic samples; only a clause that is in the baseline of discharged obligations and fails there is reported (with that input as replay).")
 for _p, _c in CHECKS.items():
     _c['level_note'] = _c['level_note'] + (' ' + ADDENDA[_p] if _p in ADDENDA else '') + (GENERAL if _p != 'C18' else '')
+
+# --- addenda of the third session (gap analysis per property: contracts/Cxx_gap.py; appended to level_note)
+ADDENDA3 = {
+ 'C01': "Third session (C01_gap.py): mix_from with energy balance incl. the H-setter and phases fall-backs, conserve_phases, Stream.sum / + / += / builtin sum, phase views and proxies as inlets, "
+        "receivers whose phases match up to case; split_to into multi-phase outlets with old contents and second splits; separate_out of a, of both, of itself, -=; copy_flow with exclude, lists, "
+        "ellipsis, foreign IDs; k*s histories; totals also read through mol[i], imol[ID], imol[phase, ID] and phase views; vle=True mixing bounded (mode B). 6 more defects repaired.",
+ 'C02': "Third session: see C02_gap.py groups in the evidence (entry points and histories added by the gap analysis).",
+ 'C03': "Third session: see C03_gap.py groups in the evidence.",
+ 'C04': "Third session: see C04_gap.py groups in the evidence.",
+ 'C05': "Third session (C05_gap.py): KineticReaction, Reaction.conversion, reset_chemicals of sets/items, items and slices applied through __call__, nested ReactionSystem, reactant_flux, "
+        "CHECK_FEASIBILITY=False, 2-d mass views, correct_atomic_balance; histories on real balanced reactions (mode B: every operation sequence of length <= 2-3 over 14 programs). 3 more defects repaired.",
+ 'C06': "Third session (C06_gap.py): dH of objects produced by copy/backwards/reset_chemicals/X and product_yield setters/string parsers, members of copied and sliced sets, Hf revised later; "
+        "force_reaction, items and slices, phase views, proxies, linked streams, bare arrays as reaction targets; Hnet setter and adiabatic histories; Hf/Hnet through every channel; real memo on "
+        "(mode B). 1 more defect repaired (dH with phases 'L'/'S').",
+ 'C07': "Third session (C07_gap.py, C07_more.py): Tb/Tm/Hfus/S0/phase_ref setters and copy(ID, **data) incl. locked chemicals, copy_models_from between locked and unlocked chemicals, 'L'/'S' "
+        "and by-attribute reads, mixtures with phase-locked chemicals, dense mol inputs, Stream/MultiStream H/S/C channels with cached second reads, pickle / Chemical(ID, phase=) / method "
+        "switch / reset histories and EOSMixture extensivity (mode B), constructor keywords method= / phase_ref= (mode B). 1 more defect repaired (Sfus after Hfus/Tm setters).",
+ 'C08': "Third session (C08_gap.py): Stream/MultiStream entry points (bubble/dew_point_at_T/P, get_bubble/dew_point) incl. default specifications, reordered IDs, zero-flow chemicals, second "
+        "calls; tuple/list/int compositions; reactive variants; the REAL Chemical.Tsat with its bracketing call site and vle_domain in mode S; 5-chemical permutations and BubblePointBeta "
+        "(mode B). 1 more defect repaired.",
+ 'C09': "Third session (C09_gap.py): operand = target or one of its rows, slices with empty/negative/zero bounds, view/copy semantics and read-only propagation, every value form of "
+        "__setitem__, constructors/converters, query methods, real x boolean operand pairs, two-step histories incl. exact cancellation, reflected operators with array-like left operands (mode "
+        "S); SparseLogicalVector and boolean SparseArray get/set and operators exhaustively over all contents of sizes <= 3 / 2x3 (mode B). Mode U: bound-method aliases translated; a kernel "
+        "that leaves the VCG subset is run natively on 400 sampled inputs instead of being dropped. 6 more defects repaired.",
+ 'C10': "Third session (C10_gap.py): get_flow/set_flow/get_data/set_data with units, multi-phase mass view writes, flows given by name at construction/reset and through iarray/ikwarray/"
+        "isplit/..., copies, phase proxies, to_chemical/material_indexer, casts, reset_chemicals round trips, the hit branch and all ten call sites of index_overlap, refused lookups as "
+        "history, available_indices/__contains__/set_synonym/late aliases, PhaseIndexer over all 31 phase sets. 3 more defects repaired.",
+ 'C11': "Third session (C11_gap.py): flows/totals given in a unit to the constructors and reset_flow, in-place arithmetic and every index form on the view arrays, normalised/fraction/"
+        "composition channels, views interleaved with proxy/copy/scale/mix_from/separate_out/split_to/copy_flow/set_data/temporary/as_stream/reduce_phases/equilibrium accessors/Stream.sum, "
+        "unit factors between non-base units with a shared factor cache. 1 more defect repaired; F-C11-4d printed as KNOWN-FINDING.",
+ 'C12': "Third session (C12_gap.py): the public channels (phases, len, imol[p, ID], iteration, Stream.__getitem__, phase fractions) read before and after every operation, exact zeros and empty() "
+        "through views and parents, growth in place through copy_like (single-phase and other-package sources) and mix_from with the contents stated, temporary()/from_data/save-restore on "
+        "views, histories of 30 operations over 61 operation kinds.",
+ 'C13': "Third session (C13_gap.py, C13_more.py): mass-view channel after every step, re-linking to a third stream, successive copy_like/set_data chains on linked targets, StreamData reuse, "
+        "streams whose class changed in their history, phase views as originals/partners/pickled objects, pickles of Series/System/Item reactions and packages with groups/aliases/"
+        "IdealThermo (mode B), pickles of customised chemicals while the stock chemical of the same ID is in the chemical cache (mode B). 3 more defects repaired; F-C13-K1a-f printed as KNOWN-FINDING.",
+ 'C14': "Third session: see C14_gap.py groups in the evidence.",
+ 'C15': "Third session: see C15_gap.py groups in the evidence.",
+ 'C16': "Third session (C16_gap.py): the arrays derived by the REAL GroupActivityCoefficients.__new__ (incl. get_interaction fall-backs, Q = 0 sub-groups, identical group sets) now in mode S for "
+        "the limit and permutation sentences; cache/pickle/copy/subset/regroup histories; ideal models after the caller overwrote a returned array; read-only and strided inputs. 1 more defect repaired.",
+ 'C17': "Third session (C17_gap.py): ReactionItem as operand, reactant at other positions, second and later operations, operands re-based/moved/placed in sets before, reads through the public "
+        "interface, backwards with the product in the second phase row / wt basis, slices (stepped, negative, nested) and ReactionSystem conversions, public entry points on every feed kind.",
+ 'C18': "Third session: mode U now also proves StreamSequence.extend and slice assignment (__setitem__ with a slice -> _set_streams) with INDUCTIVE LOOP INVARIANTS (nothing unrolled), and "
+        "AbstractUnit.take_place_of / replace_with(other) / disconnect() MODULARLY against the proved slice-assignment contract (requires as obligations at the call site, ensures + frame as "
+        "the only knowledge afterwards). Still bounded: AbstractUnit.insert, pipe notation, Connection.reconnect, slices with a None element or negative bounds.",
+ 'C19': "Third session (C19_gap.py): real feed sizes and priorities symbolic (mode S: the statement for all real feed sizes per structure), every feed order, bypasses into loops, interlocked and "
+        "hanging loops (the rare joining branches), repeated calls, sort with nested sub-networks, every joining step monitored, loop helpers, unconnected inlets (mode B). The recycle clause "
+        "is read strictly (a reported recycle lies on a cycle between given units). 1 more defect repaired.",
+ 'C20': "Third session (C20_gap.py): split as list/tuple, ins as tuple/generator, bottom/permeate among the inlets, second calls and recycles, multi-phase top in the quick tier, moisture "
+        "histories, phase_split histories, vle/lle wrappers on multi-phase feeds with a row-faithful equilibrium contract, partition variants and repeat calls, achieved K read through the "
+        "library helpers, real Rachford-Rice solver for 1-6 chemicals and real lstsq (mode B). 3 more defects repaired (one of them a regression of a repair made in this session, caught before registration).",
+}
+for _p, _c in CHECKS.items():
+    if _p in ADDENDA3: _c['level_note'] = _c['level_note'] + ' ' + ADDENDA3[_p]
